@@ -325,6 +325,7 @@ def obligations(tier, seed):
             pr = list(params) + ([["k", 0, 8 if thorough else 4]] if stage == "paused" else [])
             obs.append({"name": "roundtrip/%s/%s" % (mname, stage), "harness": "roundtrip", "cube": dict(consts, spec=spec, stage=stage), "params": pr,
                         "timeout": 900 if thorough else 150, "engine": "zsym"})
+    obs = profiles.split_param(obs, "k")
     for cname, cls in _classes().items():
         for name in basic_parameters(cls):
             if name in EXCLUDED.get(cname, []):
